@@ -89,9 +89,14 @@ def main():
         print("ERROR: model/driver do not build:\n" + log_model[-3000:])
         sys.exit(2)
     module = P["module"]
-    ok_proof, log_proof = vlib.lake_build([module])
-    mod_file = os.path.join(vlib.LEAN, module.replace(".", "/") + ".lean")
-    thms = vlib.theorems_in(mod_file)
+    modules = [module] + list(P.get("extra_modules", []))
+    ok_proof, log_proof = vlib.lake_build(modules)
+    thms = []
+    thm_module = {}
+    for mm in modules:
+        for t in vlib.theorems_in(os.path.join(vlib.LEAN, mm.replace(".", "/") + ".lean")):
+            thms.append(t)
+            thm_module[t] = mm
     obligations = len(thms)
     discharged = 0
     axiom_report = {}
@@ -99,7 +104,10 @@ def main():
     if gen_err:
         broken_theorems.append(("Gen extraction", gen_err))
     if ok_proof:
-        axiom_report, raw = vlib.audit_axioms(module, thms)
+        axiom_report = {}
+        for mm in modules:
+            rep, raw = vlib.audit_axioms(mm, [t for t in thms if thm_module[t] == mm])
+            axiom_report.update(rep)
         for t in thms:
             ax = axiom_report.get(t)
             if ax is None:
@@ -116,10 +124,12 @@ def main():
         broken_theorems.append((f"{h[0]}:{h[1]}", "forbidden construct: " + h[2]))
     lc = None
     if tier == "thorough" and ok_proof:
-        okc, outc = vlib.leanchecker(module)
-        lc = okc
-        if not okc:
-            broken_theorems.append((module, "leanchecker rejected: " + outc[-1500:]))
+        lc = True
+        for mm in modules:
+            okc, outc = vlib.leanchecker(mm)
+            lc = lc and okc
+            if not okc:
+                broken_theorems.append((mm, "leanchecker rejected: " + outc[-1500:]))
 
     # 3. correspondence ------------------------------------------------------------------------
     stream_results = []
@@ -278,7 +288,7 @@ def main():
         property_id=pid, tier=tier, seed=seed, level="proof",
         coverage=dict(
             obligations=max(obligations, 1), discharged=discharged,
-            checker_cmd=f"cd lean && lake build {module} && lake env lean <#print axioms on each theorem>" + (" && lake env leanchecker " + module if tier == "thorough" else ""),
+            checker_cmd=f"cd lean && lake build {' '.join(modules)} && lake env lean <#print axioms on each theorem>" + (" && lake env leanchecker <each module>" if tier == "thorough" else ""),
             trusted_base=["Lean 4.33 kernel", "axioms propext, Classical.choice, Quot.sound only (audited per theorem this run)",
                           "no native_decide / bv_decide / sorry (grep audited this run)",
                           "hand-written Lean model tied to /repo by the correspondence streams below (differential execution, bit-exact)",
